@@ -857,4 +857,41 @@ theorem two_u_le_ulp {W : Sem} (hW : W.WF) {sg : Bool} {x : Flt} (h : SgnN W sg 
         rw [zpow_add₀ (by norm_num : (2:ℚ) ≠ 0)]; norm_num
     _ ≤ _ := zpow_le_zpow_right₀ (by norm_num) (by omega)
 
+/-! ## 7. the working format of `as_fraction` (more exponent bits, operand cast exactly) -/
+
+theorem wideSem_WF {s : Sem} (h : s.WF) : (wideSem s).WF :=
+  ⟨by rw [wideSem_e]; have := h.1; omega, by rw [wideSem_p]; exact h.2⟩
+
+/-- the operand in the working format: same sign, same magnitude, canonical and normal -/
+theorem cast_wide_sgnN (x : Flt) (hF : x.sem.WF) (hx : x.cat = .normal) (hc : x.Canonical) :
+    SgnN (wideSem x.sem) x.sign (x.cast (wideSem x.sem)) ∧
+      (x.cast (wideSem x.sem)).mag = x.mag := by
+  obtain ⟨a, b, c, d, e⟩ := C06.widen_lossless_normal x (wideSem x.sem) x.sem.rm
+    (by rw [wideSem_e]; omega) (le_refl _) hF (wideSem_WF hF) hx hc
+  exact ⟨⟨a, c, b, d⟩, e⟩
+
+/-- the exponent range of the working format: `p + emax ≤ emax_wide` -/
+theorem wide_emax_bound {s : Sem} (h : s.WF) : (s.p : Int) + s.emax ≤ (wideSem s).emax := by
+  have he := h.1
+  have hp := h.2
+  rw [Sem.emax_eq (by omega), Sem.emax_eq (by rw [wideSem_e]; omega), wideSem_e]
+  have hL : s.logPrecision = Nat.log2 s.p + 1 := by
+    unfold Sem.logPrecision; rw [if_neg (by omega)]
+  have hT : s.p < 2 ^ s.logPrecision := by rw [hL]; exact Nat.lt_log2_self
+  have hA : 2 ^ 1 ≤ 2 ^ (s.e - 1) := Nat.pow_le_pow_right (by norm_num) (by omega)
+  have hsplit : 2 ^ (s.e + (s.logPrecision + 1) - 1)
+      = 2 * (2 ^ (s.e - 1) * 2 ^ s.logPrecision) := by
+    rw [show s.e + (s.logPrecision + 1) - 1 = (s.e - 1) + s.logPrecision + 1 by omega,
+      Nat.pow_succ, Nat.pow_add]; ring
+  rw [hsplit]
+  have h1 : 2 ^ (s.e - 1) * (s.p + 1) ≤ 2 ^ (s.e - 1) * 2 ^ s.logPrecision :=
+    Nat.mul_le_mul_left _ hT
+  have h2 : 2 ^ (s.e - 1) * 1 ≤ 2 ^ (s.e - 1) * (s.p + 1) := Nat.mul_le_mul_left _ (by omega)
+  have h3 : 2 * (s.p + 1) ≤ 2 ^ (s.e - 1) * (s.p + 1) := Nat.mul_le_mul_right _ hA
+  generalize 2 ^ (s.e - 1) * 2 ^ s.logPrecision = X at *
+  generalize 2 ^ (s.e - 1) * (s.p + 1) = Y at *
+  generalize 2 ^ (s.e - 1) = A at *
+  push_cast
+  omega
+
 end Arp.C20
